@@ -629,6 +629,18 @@ Section Proc2.
     destruct (validate_proposal joiner_ok now d (Some t)); [eauto|contradiction].
   Qed.
 
+  (* a proposal that names no leader is refused (explicit nil check in Proposed) *)
+  Lemma proposal_without_leader_refused : forall now s p t,
+    gp_body p = PProposal t -> t_leader t = None ->
+    fst (packet_step joiner_ok key_ok verify_message me B now s p) = s.
+  Proof.
+    intros now s p t Hb H. unfold packet_step.
+    destruct (gp_md p) as [md|]; auto. destruct (len (md_sig md) <? 4); auto.
+    destruct (mem_bytes _ _); auto. rewrite Hb. unfold packet_apply.
+    destruct (negb (bytes_eqb _ _)); auto. rewrite Hb. simpl. unfold do_proposed. rewrite H.
+    destruct (negb (valid_change _ _)); reflexivity.
+  Qed.
+
   (* a proposal packet whose terms ValidateProposal refuses (for the base state the node applies it
      to) leaves the store exactly as it was *)
   Lemma proposal_packet_refused : forall now s p t,
